@@ -196,7 +196,10 @@ def shard(spec):
                 if time.time() > deadline:
                     st.count("stopped_by_time_budget")
                     break
-                tb = gen.Textbook(rng, decimal=sess.decimal, max_depth=rng.choice([2, 3, 4]))
+                if rng.random() < 0.25:
+                    tb = gen.Textbook(rng, decimal=sess.decimal, max_depth=4, features=gen.Textbook.focused_pool(rng), p_leaf=0.3)
+                else:
+                    tb = gen.Textbook(rng, decimal=sess.decimal, max_depth=rng.choice([2, 3, 4]))
                 tree, lits = tb.expression()
                 kind, lost, detail, res = judge_tree(sess, tree)
                 st.evaluations += 1
@@ -285,7 +288,8 @@ def pred_optional_word_prefix_drop(v, params):
         for n, p in nodes:
             if n.kids is None or not p or n.tag in shrink.STRUCTURAL or n.tag == "math":
                 continue
-            before = [lp for lp in lost_paths if lp < p and lp[:len(p)] != p]
+            # the lost literal is outside N (in speech it comes before N's words; in the tree it may be a later child, e.g. the index of a root)
+            before = [lp for lp in lost_paths if lp[:len(p)] != p]
             if not before:
                 continue
             alone = judge_tree(sess, gen.N("math", [n.copy()]))[3]
